@@ -388,6 +388,23 @@ func (w *world) sweepPrefix(al alphabet, p pfx, order []int, leq func(a, b int) 
 				continue
 			}
 			evs = append(evs, event{E: "V", I: mi + 1, T: ti + 1, V: o.Class, R: o.Rule, G: g})
+			if o.Class == "ignore" || o.Class == "reject" {
+				// the same bytes again on the SAME validator instance: a refused message leaves no trace in the modelled
+				// state, so the verdict must repeat (state that is not modelled - caches - shows here); panics are monitored
+				lastCallStart.Store(time.Now().UnixNano())
+				o2, _ := w.validate(peer, mon, al.Alpha[mi], al.Times[ti], false, beh+"-repeat", len(prefix),
+					append(append([]step{}, prefix...), step{al.Alpha[mi], al.Times[ti]}))
+				lastCallStart.Store(0)
+				steps++
+				if o2.TimeOK && (o2.Class != o.Class || o2.Rule != o.Rule) && o2.Class != "panic" && o2.Class != "hang" {
+					w.mu.Lock()
+					w.res.Diverge(beh, len(prefix), "repeat", o.Class+":"+o.Rule, o2.Class+":"+o2.Rule)
+					w.mu.Unlock()
+					if o2.Class == "accept" && !rebuild(false) {
+						return evs, next
+					}
+				}
+			}
 			if o.Class == "accept" {
 				if extend {
 					next = append(next, pfx{append(append([]int{}, p.steps...), mi, ti)})
@@ -412,9 +429,18 @@ func (w *world) sweepPrefix(al alphabet, p pfx, order []int, leq func(a, b int) 
 // ------------------------------------------------------------------------------------------------------
 // byte-level half of C08 (exploration seeded from the model's messages)
 
-func perturb(c *valkit.Concrete, rng *rand.Rand, flips int) [][]byte {
+func perturb(c *valkit.Concrete, rng *rand.Rand, flips int, opIDs []uint64) [][]byte {
 	d := c.Data
 	var out [][]byte
+	if c.EnvSig != nil && len(d) >= 264 { // the envelope names every kind of operator (registered, unknown, unparsable key)
+		for _, id := range opIDs {
+			x := append([]byte{}, d...)
+			for k := 0; k < 8; k++ {
+				x[256+k] = byte(id >> (8 * k))
+			}
+			out = append(out, x)
+		}
+	}
 	seen := map[int]bool{}
 	for _, o := range c.Offsets { // truncation at each field boundary, and one byte around it
 		for _, cut := range []int{o - 1, o, o + 1} {
@@ -438,7 +464,7 @@ func perturb(c *valkit.Concrete, rng *rand.Rand, flips int) [][]byte {
 	}
 	for _, o := range c.Offsets { // 8-byte fields: extreme values
 		if o+8 <= len(d) {
-			for _, v := range []uint64{0, 1 << 31, 1 << 32, 1 << 63, ^uint64(0)} {
+			for _, v := range []uint64{0, 1, 1<<31 - 1, 1 << 31, 1<<32 - 1, 1 << 32, 1 << 62, 1<<63 - 1, 1 << 63, ^uint64(0)} {
 				x := append([]byte{}, d...)
 				for k := 0; k < 8; k++ {
 					x[o+k] = byte(v >> (8 * k))
@@ -554,11 +580,12 @@ func (w *world) bytesMode(al alphabet, seed int64, flips, maxMsgs int) {
 	for n, mi := range idx {
 		c := w.concretise(al.Alpha[mi])
 		t := al.Times[rng.Intn(len(al.Times))]
-		vars := perturb(c, rng, flips)
+		vars := perturb(c, rng, flips, w.env.AllOperatorIDs())
 		runtime.ReadMemStats(&ms0)
 		for _, data := range vars {
 			feed(fresh, monF, nil, c.Topic, data, t, false)
 			feed(warm, monW, warmPrefix, c.Topic, data, t, false)
+			feed(warm, monW, warmPrefix, c.Topic, data, t, false) // twice on one instance: history through caches
 			w.feedDecoders(data)
 		}
 		runtime.ReadMemStats(&ms1)
@@ -590,7 +617,7 @@ func (w *world) bytesMode(al alphabet, seed int64, flips, maxMsgs int) {
 			c.Offsets = append(c.Offsets, o)
 		}
 		w.feedRecords(s)
-		for _, data := range perturb(c, rng, flips*4) {
+		for _, data := range perturb(c, rng, flips*4, nil) {
 			w.feedRecords(data)
 		}
 	}
